@@ -159,3 +159,38 @@ class _PassivityFixed(_Passivity):
 
 register(type('Dyn_decomposition_2R_fixed', (_DecompFixed,), dict()))
 register(type('Dyn_passivity_2R_fixed', (_PassivityFixed,), dict()))
+
+
+@register
+class Dyn_integer_joint_arrays_probe(Dyn):
+    """bounded native stand-in (probes): the decomposition and the agreement of InverseDynamics with its derived
+    functions also hold when the joint positions are handed over as INTEGER-typed arrays (whole-radian poses) -- dtype
+    effects are outside the real-number model, where every array is a real array"""
+    target = MR + ':InverseDynamics'
+    n = 2
+    probes = [dict(q0=0.0, q1=0.0), dict(q0=1.0, q1=-2.0), dict(q0=3.0, q1=1.0)]
+    shape_bound = 'probes: three integer joint vectors on the fixed 2R geometry, native code'
+
+    def run(self, g, fn, args, kwargs):
+        mr = g.module(MR)
+        q = [g.real('q0', lo=-3.0, hi=3.0), g.real('q1', lo=-3.0, hi=3.0)]
+        th, dth, ddth, grav, F, Ml, Gl, Sl = _fixed_geom_args(g, 2)
+        if g.mode != 'concrete':
+            return None
+        qi = _np.array([int(round(q[0])), int(round(q[1]))], dtype=int)
+        qf = qi.astype(float)
+        cp = lambda x: x.copy() if isinstance(x, _np.ndarray) else [y.copy() for y in x]
+        out = []
+        for qq in (qi, qf):
+            tau = mr.InverseDynamics(qq.copy(), cp(dth), cp(ddth), cp(grav), cp(F), cp(Ml), cp(Gl), cp(Sl))
+            M = mr.MassMatrix(qq.copy(), cp(Ml), cp(Gl), cp(Sl))
+            out.append((_np.array(tau, dtype=float), _np.array(M, dtype=float)))
+        return out
+
+    def post(self, g, out, args, kwargs):
+        if out is None:
+            g.holds('probe-only contract: %d integer joint vectors are run on the native code' % len(self.probes), len(self.probes) > 0)
+            return
+        (tau_i, M_i), (tau_f, M_f) = out
+        g.eq('InverseDynamics(integer-typed q) = InverseDynamics(float q)', tau_i, tau_f)
+        g.eq('MassMatrix(integer-typed q) = MassMatrix(float q)', M_i, M_f)
